@@ -143,6 +143,8 @@ func (g *goTranslator) tr(x Expr) (string, bool) {
 	switch n := x.(type) {
 	case *EInt:
 		return n.V, true
+	case *EReal:
+		return n.V, true
 	case *EBool:
 		return fmt.Sprint(n.V), true
 	case *EStr:
